@@ -5,6 +5,7 @@ import (
 	"context"
 	"fmt"
 	"math/rand/v2"
+	"os"
 	"sort"
 	"strings"
 	"sync"
@@ -260,7 +261,21 @@ func c13WholeRun(t *testing.T, s *sim.Scn) *sim.Outcome {
 	if s.Cfg["backlog"] == 1 {
 		body = c13BacklogBody
 	}
-	if p := sim.Bubble(t, func() { body(t, s, o) }); p != nil {
+	if s.Cfg["restart"] == 1 {
+		body = c13RestartBody
+	}
+	var p any
+	if s.Cfg["restart"] == 1 {
+		var dump string
+		p, dump = sim.BubbleWall(t, func() { body(t, s, o) }, 60*time.Second)
+		if p == sim.BubbleStalled {
+			c13Stalled(s, o, dump)
+			return o
+		}
+	} else {
+		p = sim.Bubble(t, func() { body(t, s, o) })
+	}
+	if p != nil {
 		msg := fmt.Sprint(p)
 		if strings.Contains(msg, "deadlock") {
 			// goroutines of libp2p / go-header / mocknet that stay parked after Run has returned are not activities
@@ -271,6 +286,34 @@ func c13WholeRun(t *testing.T, s *sim.Scn) *sim.Outcome {
 		}
 	}
 	return o
+}
+
+// c13Stalled classifies a restart timeline whose bubble stopped making progress. If some goroutine is spending
+// simulated network time (simNetDelay) the fake clock is held up by a goroutine waiting for a sync.Mutex whose
+// holder waits for that time (go-header validates gossip and fetches headers under one mutex): a limit of the
+// simulator, counted as inconclusive. Otherwise nothing in the bubble waits for time and yet it does not
+// finish: goroutines of the code under test wait for each other.
+func c13Stalled(s *sim.Scn, o *sim.Outcome, dump string) {
+	o.V = nil
+	if strings.Contains(dump, "simNetDelay") {
+		o.Count("inconclusive:fake-clock-held-up-by-a-lock-across-simulated-network-wait", 1)
+		o.NonTrivial = false
+		return
+	}
+	var waits []string
+	for _, blk := range strings.Split(dump, "\n\n") {
+		if strings.Contains(blk, "synctest bubble") && !strings.Contains(strings.SplitN(blk, "\n", 2)[0], "(durable)") {
+			lines := strings.Split(blk, "\n")
+			if len(lines) > 14 {
+				lines = lines[:14]
+			}
+			waits = append(waits, strings.Join(lines, " | "))
+		}
+	}
+	if len(waits) > 3 {
+		waits = waits[:3]
+	}
+	o.Fail("C13/activities-wait-for-each-other", "", -1, fmt.Sprintf("the timeline made no progress for 60 s of wall-clock time although no goroutine waits for simulated time; goroutines not durably blocked: %s", strings.Join(waits, " || ")), "every activity makes progress or returns")
 }
 
 // c13InitDirected: every schedule (all 2^11 choice prefixes) of "first header / first data item written
@@ -285,6 +328,9 @@ func c13InitDirected() []*sim.Scn {
 }
 
 func c13WholeGen(r *rand.Rand, tier string) *sim.Scn {
+	if r.IntN(3) == 0 || os.Getenv("VERIF_C13_RESTART_ONLY") != "" {
+		return c13RestartGen(r, tier)
+	}
 	run := int64(3000 + r.IntN(37000))
 	s := &sim.Scn{Cfg: map[string]int64{
 		"node": 1, "nfull": r.Int64N(3), "bt": []int64{250, 500, 1000, 2000}[r.IntN(4)], "dat": []int64{1000, 3000, 6000}[r.IntN(3)], "run": run, "stop": r.Int64N(run + 1),
